@@ -810,6 +810,8 @@ static void std_S_l(const cs_scenario *sc, const cs_std *st, int findex,
 	    S[p * P + p] = v->gamma_unused[p];
 }
 
+int cs_last_eq_total, cs_last_unknown_total;
+
 int cs_identifiable(const cs_scenario *sc, unsigned mask,
 	long double *margin, int *equations, int *unknowns)
 {
@@ -982,6 +984,10 @@ int cs_identifiable(const cs_scenario *sc, unsigned mask,
     free(J);
     *equations = min_eq;
     *margin = m;
+    cs_last_eq_total = 0;
+    for (int sys = 0; sys < v->nsys; ++sys)
+	cs_last_eq_total += eqs_sys[sys];
+    cs_last_unknown_total = v->nsys * unknowns_per_system(v) + nu;
     return result;
 }
 
